@@ -215,6 +215,26 @@ def handleLine (line : String) (ctx : Ctx) : Ctx × List String :=
   | "E" :: fl :: _ =>
     let ids := (splitList fl).filterMap String.toNat?
     ({ ctx with epFns := ids, sys := ⟨[], [], base⟩, episode := ctx.episode + 1, stepInEp := 0 }, [])
+  | ["R", dumps, stats, called] =>
+    -- start the episode from a state observed on the implementation (quiescent state after a scheduled run)
+    let ctx := resync ctx dumps
+    let calledL := (splitList called).filterMap String.toNat?
+    let sys := { ctx.sys with called := calledL }
+    let sys := (stats.splitOn ";").foldl (fun (sy : MSys) part =>
+      match part.splitOn "=" with
+      | [fi, hm] =>
+        match fi.toNat?, hm.splitOn "," with
+        | some fi, [h, m] =>
+          match h.toNat?, m.toNat? with
+          | some h, some m =>
+            let id : CacheId := ⟨fi, none⟩
+            if (sy.caches.find? (fun p => p.1 = id)).isSome then
+              sy.setCache id { sy.getCache id with hitStat := h, missStat := m }
+            else sy
+          | _, _ => sy
+        | _, _ => sy
+      | _ => sy) sys
+    ({ ctx with sys := sys }, [])
   | "S" :: _ =>
     let ctx := { ctx with lines := ctx.lines + 1, stepInEp := ctx.stepInEp + 1 }
     match (line.drop 2).toString.splitOn "||" with
